@@ -241,7 +241,7 @@ def check_state_across_include(res: Res, rng: random.Random) -> None:
     tbl = "".join(f"{0x40 + i:02x}={c}\n" for i, c in enumerate("abcdef"))
     tbl2 = "".join(f"{0x90 + i:02x}={c}\n" for i, c in enumerate("abcdef"))
     first = rng.choice(["", ".table 'one_q.tbl'\n.text 'fa'\n"])
-    moved = [".table 'two_q.tbl'", "kq := 5", ".macro mq(pa) {\n.db pa, kq\n}", "lq:", ".db 1, 2", "*=0x018000", "sq = lq + 1"]
+    moved = [".table 'two_q.tbl'", "kq := 5", ".macro mq(pa) {\n.db pa, kq\n}", "lq:", ".db 1, 2", "*=0x018000", "sq = lq + 1", "dec 5", "inc 7", "asl", "rol 0x10"]
     rng.shuffle(moved)
     moved = moved[:rng.randint(2, len(moved))]
     after = ""
